@@ -116,7 +116,7 @@ pub fn prop(tier: Tier, _seed: u64) -> Prop {
     let (smax, dmax, full): (u32, u32, u32) = tier.pick((7, 10, 4), (16, 20, 5));
 
     // ---- one axis varying at a time, full CROP1 x CROP1
-    let dims = vec![smax as u64, smax as u64, 2 * dmax as u64, 16, 16];
+    let dims = vec![smax as u64, smax as u64, 2 * dmax as u64, 17, 17];
     let (d1, b1) = (dims.clone(), bes.clone());
     p.spaces.push(
         Space::new("(w_in,h_in) x one destination axis varying x CROP1 x CROP1 (x pixel types x source containers inside; fenced)", product(&dims), move |idx, ctx| {
@@ -143,7 +143,7 @@ pub fn prop(tier: Tier, _seed: u64) -> Prop {
     );
 
     // ---- full 2-D product for small sizes, all pixel types
-    let dims2 = vec![full as u64, full as u64, full as u64, full as u64, 16, 16];
+    let dims2 = vec![full as u64, full as u64, full as u64, full as u64, 17, 17];
     let (d2, b2) = (dims2.clone(), bes.clone());
     p.spaces.push(
         Space::new("full product (w_in,h_in,w_out,h_out) for small sizes x CROP1 x CROP1 x all 13 pixel types", product(&dims2), move |idx, ctx| {
